@@ -13,5 +13,6 @@ CONSTANTS
   Chars = {}
   IntParts = {}
   Sample = 1
+  HiStep = 1
 INVARIANTS InvStrRoundTrip
 CHECK_DEADLOCK FALSE
